@@ -125,7 +125,7 @@ SCALING_FIELDS = ('colscaling', 'xcolscaling', 'ycolscaling')
 SCALING_PRODUCERS = ('MatrixColSDEV', 'MatrixColRMS', 'MatrixColVar')
 
 
-def is_scaling_cell(prog, f, e):
+def is_scaling_cell(prog, f, e, stored_only=False):
     """divisor is a cell of a column-scaling vector: MatrixPreprocess' scaling parameter, a *colscaling field of a
     model struct (possibly through a list ->d[k]), or a local filled by a column-spread routine"""
     e = strip(e)
@@ -148,6 +148,8 @@ def is_scaling_cell(prog, f, e):
         d = cont['referencedDecl']
         if d.get('kind') == 'ParmVarDecl' and f.name == 'MatrixPreprocess':
             return [p['id'] for p in f.params].index(d['id']) == 3
+        if stored_only:
+            return False
         for cn, node in f.calls:
             if cn in SCALING_PRODUCERS and len(call_args(node)) > 1 and fe.ref_id(call_args(node)[1]) == d['id']:
                 return True
@@ -1014,3 +1016,96 @@ def option_statistics(chk, prog):
         chk.instance(R, 'centring statistic', 'refuted')
         chk.violation(Finding('G.option-statistic', rel(f.file), f.name, 'average', f.where,
                               'MatrixPreprocess no longer fills the average vector with MatrixColAverage of the input matrix exactly once'))
+
+
+def scaling_tests(chk, prog, files):
+    """a stored column scaling may be negative (level scaling stores the column mean): whether it is "zero" is decided only by the
+    two-sided ApproxEq idiom, never by a one-sided or exact comparison"""
+    R = chk.rule('G.scaling-test', 'every comparison on a cell of a column-scaling vector is one half of the two-sided ApproxEq(cell, 0, eps) idiom '
+                 '(scalings can be negative under level scaling, so a one-sided test misclassifies them)')
+    n = 0
+    for f in prog.all_funcs():
+        if f.unit.name not in files or f.body is None:
+            continue
+        pm = None
+        for node in walk(f.body):
+            if node.get('kind') != 'BinaryOperator' or node.get('opcode') not in ('<', '>', '<=', '>=', '==', '!='):
+                continue
+            ops = kids(node)
+            cell = None
+            for o in ops:
+                if is_scaling_cell(prog, f, o, stored_only=True):
+                    cell = o
+            if cell is None:
+                continue
+            n += 1
+            pm = pm or flow.parent_map(f.body)
+            # is this comparison one half of an ApproxEq over the same cell?
+            ok = False
+            for anc in flow.ancestors(pm, node):
+                if anc.get('kind') == 'BinaryOperator' and anc.get('opcode') == '&&':
+                    m = match_approx(anc)
+                    if m and cell_key(m[0]) == cell_key(cell):
+                        ok = True
+                        break
+                if anc.get('kind') not in ('ParenExpr', 'ImplicitCastExpr', 'BinaryOperator'):
+                    break
+            desc = '%s %s: `%s`' % (f.unit.where(node), f.name, f.unit.text(node)[:80])
+            if ok:
+                chk.instance(R, desc + ' is half of ApproxEq')
+            else:
+                chk.instance(R, desc + ' is a lone comparison', 'refuted')
+                chk.violation(Finding('G.scaling-test', rel(f.file), f.name, 'cmp:' + cell_key(cell), f.unit.where(node),
+                                      '%s: `%s` compares the stored scaling %s one-sidedly/exactly; a scaling can be negative (level scaling stores the '
+                                      'column mean), so columns are treated differently from the way MatrixPreprocess treated them at training time'
+                                      % (f.name, f.unit.text(node)[:80], cell_key(cell))))
+    return n
+
+
+# absolute-tolerance tests inside dense kernels, confirmed by reading (function, reference value or None, tolerance): reason
+KERNEL_TOLERANCE_TABLE = {
+    ('SpearmanCorrelMatrix', None, 1e-3): 'tie detection between two ranked values (documented behaviour of the rank correlation)',
+    ('MatrixColAverage', 0.0, 1e-6): 'a column sum within 1e-6 of zero is stored as exactly 0 (changes the mean by < 1e-6/n)',
+    ('MatrixColDescStat', 0.0, 1e-6): 'same snap as MatrixColAverage',
+    ('MatrixGetMaxValueIndex', None, 1e-3): 'locates the cell holding the maximum found just before (comparison with a value of the same matrix)',
+    ('MatrixGetMinValueIndex', None, 1e-3): 'locates the cell holding the minimum found just before',
+}
+
+
+def kernel_tolerances(chk, prog, funcs_by_unit):
+    """dense kernels return their textbook value for data of any scale (1e-6..1e6): apart from the MISSING sentinel test, a kernel may not
+    compare a data-scaled quantity with an absolute tolerance, except at the sites confirmed in KERNEL_TOLERANCE_TABLE"""
+    R = chk.rule('K.tolerance', 'inside the dense kernels the only approximate-equality tests are the MISSING sentinel test and the confirmed '
+                 'sites of KERNEL_TOLERANCE_TABLE: no absolute tolerance (> 1e-12) is applied to a quantity that scales with the data')
+    miss = float(missing_value())
+    seen = set()
+    for unit, names in funcs_by_unit.items():
+        for nm in names:
+            f = prog.funcs.get(nm)
+            if f is None or f.body is None:
+                continue
+            for n in walk(f.body):
+                if not (n.get('kind') == 'BinaryOperator' and n.get('opcode') == '&&'):
+                    continue
+                m = match_approx(n)
+                if not m:
+                    continue
+                v, t = literal_value(m[1]), literal_value(m[2])
+                if v == miss:
+                    continue
+                key = (nm, v, t)
+                desc = '%s %s: ApproxEq(%s, %s, %s)' % (f.unit.where(n), nm, f.unit.text(m[0])[:40], f.unit.text(m[1])[:20] if v is None else '%g' % v, t)
+                if key in KERNEL_TOLERANCE_TABLE:
+                    seen.add(key)
+                    chk.instance(R, desc + ': confirmed site (%s)' % KERNEL_TOLERANCE_TABLE[key])
+                elif t is not None and t <= 1e-12:
+                    chk.instance(R, desc + ': tolerance below the square of the smallest magnitude in range')
+                else:
+                    chk.instance(R, desc + ': not a confirmed site', 'refuted')
+                    chk.violation(Finding('K.tolerance', rel(f.file), nm, 'tol:%s:%s' % (cell_key(m[0]), t), f.unit.where(n),
+                                          '%s compares `%s` with %s using the absolute tolerance %s: for data of small scale (the property ranges over '
+                                          '1e-6..1e6) the test fires on ordinary non-zero values and the kernel no longer returns its textbook value'
+                                          % (nm, f.unit.text(m[0])[:60], f.unit.text(m[1])[:20], t)))
+    for key, why in KERNEL_TOLERANCE_TABLE.items():
+        if key not in seen and prog.funcs.get(key[0]) is not None:
+            chk.instance(R, 'confirmed site %s no longer present (table entry is stale, harmless)' % (key,), 'undecided')
